@@ -12,7 +12,7 @@ CLAIMED = {
                 ref='DESIGN.md §4 C05'),
     'C10': dict(tech='exhaustive complement table + relational summary / sibling cross-check of the four reverse_complement bodies',
                 text='Static: complement table proven an involution with the documented pairs; each reverse_complement body is summarised '
-                     'as new[i][σ(s)] = old[rows-1-i][σ(comp(s))] and the four siblings compared; Python wrapper reaches the core method. '
+                     'as new[i][σ(s)] = old[rows-1-i][σ(comp(s))] and the four siblings compared; an early result other than that construction is confined to the empty matrix; Python wrapper reaches the core method. '
                      'The algebraic consequences (double application = identity, mirrored scores) follow on paper from these facts.',
                 ref='DESIGN.md §4 C10'),
 }
@@ -43,7 +43,7 @@ CLAIMED['C03'] = dict(tech='estimate-direction (UP/DOWN) dataflow on the pruning
     ref='DESIGN.md §4 C03')
 CLAIMED['C08'] = dict(tech='estimate-direction analysis: rounding-direction and field-plumbing rules on to_discrete/scale, saturation inventory over every Score<u8> implementation, orientation of pruning comparisons',
     text='Static: cells are ceil((x-offset_i)/factor) (UP) and the threshold mapping is floor((s-offset)/factor) (DOWN) over the same stored fields; every 8-bit accumulation reachable from a '
-         'Score<u8> implementation is inventoried and must saturate; pruning comparisons are UP >= DOWN. The inequality follows by monotonicity for all matrices/sequences. '
+         'Score<u8> implementation is inventoried and must saturate; pruning comparisons are UP >= DOWN; the block maximum that lets the scanner skip a block covers every cell of the block. The inequality follows by monotonicity for all matrices/sequences. '
          'One recorded known finding (generic kernel uses +=).',
     ref='DESIGN.md §4 C08')
 
@@ -67,13 +67,13 @@ CLAIMED['C15'] = dict(tech='panic-site inventory over the call graph reachable f
 CLAIMED['C16'] = dict(tech='relational effect summaries of include/exclude/_new compared under the `inverse` relation, who-writes-state rule, call-order (dominance) rule, linear-form start ranges, who-may-call on randomness sources',
     text='Static (part): the invariant "state = recomputation from the alignment" has a structural inductive proof that is checked: _new establishes it (include summary on zeroed state per active sequence), '
          'include/exclude are exact inverses on the same cells under complementary guards, nothing else writes the state, next() calls exclude(z) -> prepare_pssm -> update_holdout(z) -> include(z) and yields the '
-         'matrices computed without z, start ranges keep windows inside sequences, and every random draw uses the caller-supplied RNG (determinism).',
+         'matrices computed without z, start ranges keep windows inside sequences, every random draw uses the caller-supplied RNG (determinism), and the striped layout the sampler reads through (configure_wrap bookkeeping, index and counting formulas) satisfies the C04 rules.',
     ref='DESIGN.md §4 C16')
 
 CLAIMED['C17'] = dict(tech='wrapper/core callee agreement over the call graph, finite table of the method-string match, unused-argument dataflow, guard-polarity deviance, dominance (configure before score), panic-site inventory of the binding',
     text='Static (part): the binding adds no arithmetic, so what is checked is plumbing: 18 wrappers reach the core method(s) of the same name for both alphabets (p-value/score via the "meme"/"tfmpvalue" table), '
          'every named argument is read and threshold/block_size reach the scanner, log_odds rescales exactly when the background differs, configure dominates scoring with the same operands, '
-         'create/from_counts share the conversion chain, and all 100+ panic sites of the binding\'s own bodies are discharged so argument errors are exceptions. Numerical equality is inherited from C01-C10, C14.',
+         'create/from_counts share the conversion chain, and all 100+ panic sites of the binding\'s own bodies are discharged so argument errors are exceptions; Python file objects are transported byte-exactly (request buf.len(), refuse only longer answers, copy and return the answer length). Numerical equality is inherited from C01-C10, C14.',
     ref='DESIGN.md §4 C17')
 
 CLAIMED['C01'] = dict(tech='lane-dependence abstract interpretation of the SIMD kernels (vector = tuple of byte provenance terms, loops summarised on symbolic carried values), linear-form bookkeeping rules, dispatcher arm table',
